@@ -145,6 +145,9 @@ impl ControlFlowGraph {
     ensures
         /*@wf*/ final(self).cfg_wf(),
         /*@effect*/ final(self).append_spec(*old(self), *other, r),
+        /*@counter*/ r is Ok ==> final(self).next_index == old(self).next_index + other.graph.vertices@.len(),
+        /*@budget*/ r is Ok ==> final(self).instr_budget() == old(self).instr_budget() + other.instr_budget(),
+        /*@nonempty*/ r is Ok ==> final(self).graph.vertices@.len() > 0,
 //@ enter
     broadcast use stdcoll::axiom_btreemap_index_req;
 //@ before 0 `for block in it1`
@@ -233,6 +236,8 @@ impl ControlFlowGraph {
 //@ before 0 `Ok(())`
     proof {
         lemma_imported_wf(*self, *old(self), *other, block_map@, minv);
+        lemma_imported_budget(*self, *old(self), *other, block_map@, minv);
+        lemma_map_nonempty(self.graph.vertices@, block_map@[other.exit->0]);
         assert(self.appended_with(*old(self), *other, block_map@, minv));
     }
 //@ end
@@ -245,6 +250,8 @@ impl ControlFlowGraph {
     ensures
         /*@wf*/ final(self).cfg_wf(),
         /*@effect*/ final(self).insert_spec(*old(self), *other, r),
+        /*@counter*/ r is Ok ==> final(self).next_index == old(self).next_index + other.graph.vertices@.len(),
+        /*@budget*/ r is Ok ==> final(self).instr_budget() == old(self).instr_budget() + other.instr_budget(),
 //@ enter
     broadcast use stdcoll::axiom_btreemap_index_req;
 //@ before 0 `for block in it1`
@@ -328,6 +335,7 @@ impl ControlFlowGraph {
 //@ before 0 `Ok((entry_index.unwrap(), exit_index.unwrap()))`
     proof {
         lemma_imported_wf(*self, *old(self), *other, block_map@, minv);
+        lemma_imported_budget(*self, *old(self), *other, block_map@, minv);
         assert(self.inserted_with(*old(self), *other, block_map@, minv));
     }
 //@ end
